@@ -125,6 +125,10 @@ pub struct Tok {
     pub line: usize,
     /// 0-based column (in characters) inside that line of the source
     pub col: usize,
+    /// column of the *first* source character of the token: differs from `col` only when the
+    /// character the token starts with was produced by a `^^` sequence (then `col_first..=col` is the
+    /// span of that sequence)
+    pub col_first: usize,
 }
 
 impl TokV {
@@ -217,7 +221,7 @@ pub struct Source {
     /// index of the next line to load (= number of lines loaded so far)
     pub next_line: usize,
     /// the line buffer: character, column in the source line, "is the product of a reduction"
-    buf: Vec<(char, usize, bool)>,
+    buf: Vec<(char, usize, bool, usize)>,
     loc: usize,
     pub state: State,
     pub ev: Events,
@@ -259,11 +263,11 @@ impl Source {
         }
         let mut n = 0;
         for c in trimmed.chars() {
-            self.buf.push((c, n, false));
+            self.buf.push((c, n, false, n));
             n += 1;
         }
         if let Some(e) = end_line_char {
-            self.buf.push((e, n, false));
+            self.buf.push((e, n, false, n));
         }
         true
     }
@@ -315,7 +319,8 @@ impl Source {
                 // buffer[k-1]←cur_chr; limit←limit-d; shift the rest left by d.
                 // Position convention: the slot of the last character of the sequence.
                 let col = self.buf[k - 1 + d].1;
-                self.buf[k - 1] = (new, col, true);
+                let first = self.buf[k - 1].3;
+                self.buf[k - 1] = (new, col, true, first);
                 self.buf.drain(k..k + d);
                 return true;
             } else {
@@ -332,7 +337,7 @@ impl Source {
             if self.loc >= self.buf.len() {
                 return None;
             }
-            let (mut cur_chr, mut col, mut produced) = self.buf[self.loc];
+            let (mut cur_chr, mut col, mut produced, first) = self.buf[self.loc];
             self.loc += 1;
             'reswitch: loop {
                 let cat = cfg.table.cat(cur_chr);
@@ -343,7 +348,7 @@ impl Source {
                         if self.state == State::MidLine {
                             // §347 mid_line+spacer: state←skip_blanks; cur_chr←" "
                             self.set_state(State::SkipBlanks);
-                            return Some(Item::Tok(Tok { v: TokV::Ch(' ', SPACER), line, col }));
+                            return Some(Item::Tok(Tok { v: TokV::Ch(' ', SPACER), line, col, col_first: first }));
                         }
                         continue 'switch;
                     }
@@ -351,7 +356,7 @@ impl Source {
                         // §354
                         if self.loc >= self.buf.len() {
                             // cur_cs←null_cs {state is irrelevant in this case}
-                            return Some(Item::Tok(Tok { v: TokV::Cs(String::new()), line, col }));
+                            return Some(Item::Tok(Tok { v: TokV::Cs(String::new()), line, col, col_first: first }));
                         }
                         'start_cs: loop {
                             let mut k = self.loc;
@@ -382,7 +387,7 @@ impl Source {
                                 if k > self.loc + 1 {
                                     let name: String = self.buf[self.loc..k].iter().map(|x| x.0).collect();
                                     self.loc = k;
-                                    return Some(Item::Tok(Tok { v: TokV::Cs(name), line, col }));
+                                    return Some(Item::Tok(Tok { v: TokV::Cs(name), line, col, col_first: first }));
                                 }
                             } else if self.reduce_in_name(k, c, cat, cfg.hex) {
                                 continue 'start_cs;
@@ -390,7 +395,7 @@ impl Source {
                             // cur_cs←single_base+buffer[loc]; incr(loc)
                             let name = self.buf[self.loc].0.to_string();
                             self.loc += 1;
-                            return Some(Item::Tok(Tok { v: TokV::Cs(name), line, col }));
+                            return Some(Item::Tok(Tok { v: TokV::Cs(name), line, col, col_first: first }));
                         }
                     }
                     SUP_MARK => {
@@ -430,7 +435,7 @@ impl Source {
                             }
                         }
                         self.set_state(State::MidLine);
-                        return Some(Item::Tok(Tok { v: TokV::Ch(cur_chr, SUP_MARK), line, col }));
+                        return Some(Item::Tok(Tok { v: TokV::Ch(cur_chr, SUP_MARK), line, col, col_first: first }));
                     }
                     INVALID_CHAR => {
                         // §346 decry the invalid character and goto restart (state unchanged)
@@ -440,9 +445,9 @@ impl Source {
                         // §347/§348/§350/§351: finish the line
                         self.loc = self.buf.len();
                         match self.state {
-                            State::MidLine => return Some(Item::Tok(Tok { v: TokV::Ch(' ', SPACER), line, col })),
+                            State::MidLine => return Some(Item::Tok(Tok { v: TokV::Ch(' ', SPACER), line, col, col_first: first })),
                             State::SkipBlanks => continue 'switch,
-                            State::NewLine => return Some(Item::Tok(Tok { v: TokV::Cs("par".into()), line, col })),
+                            State::NewLine => return Some(Item::Tok(Tok { v: TokV::Cs("par".into()), line, col, col_first: first })),
                         }
                     }
                     COMMENT => {
@@ -454,7 +459,7 @@ impl Source {
                         // left_brace, right_brace, math_shift, tab_mark, mac_param, sub_mark, letter,
                         // other_char, active_char: the token itself; state←mid_line
                         self.set_state(State::MidLine);
-                        return Some(Item::Tok(Tok { v: TokV::Ch(cur_chr, cat), line, col }));
+                        return Some(Item::Tok(Tok { v: TokV::Ch(cur_chr, cat), line, col, col_first: first }));
                     }
                 }
             }
